@@ -109,15 +109,9 @@ impl XRefTable {
     pub fn add_entries_from(&mut self, section: XRefSection) -> Result<()> {
         for (i, &entry) in section.entries() {
             if let Some(dst) = self.entries.get_mut(i) {
-                // Early return if the entry we have has larger or equal generation number
-                let should_be_updated = match *dst {
-                    XRef::Raw { gen_nr: gen, .. } | XRef::Free { gen_nr: gen, .. }
-                        => entry.get_gen_nr() > gen,
-                    XRef::Stream { .. } | XRef::Invalid
-                        => true,
-                    x => bail!("found {:?}", x)
-                };
-                if should_be_updated {
+                // Sections are added newest first: an entry that is already present was set by a
+                // newer section (or earlier in this one) and takes precedence over older ones.
+                if let XRef::Invalid = *dst {
                     *dst = entry;
                 }
             }
